@@ -61,5 +61,86 @@ func portfolio(script string, timeout time.Duration) SatResult {
 	return res
 }
 
-var _ = exec.Command
-var _ = strings.TrimSpace
+
+
+// portfolioModel decides the conjunction of ts with the one-shot solvers in parallel; on sat it
+// also returns a model (from whichever solver answered).
+func portfolioModel(ts []*Term, timeout time.Duration) (SatResult, Model) {
+	vars := map[string]*Term{}
+	seen := map[*Term]bool{}
+	for _, t := range ts {
+		collectVars(t, seen, vars)
+	}
+	script := Script(ts)
+	if len(vars) > 0 {
+		var sb strings.Builder
+		sb.WriteString("(get-value (")
+		for n := range vars {
+			sb.WriteString(smtVarName(n) + " ")
+		}
+		sb.WriteString("))\n")
+		script = "(set-option :produce-models true)\n" + script + sb.String()
+	}
+	type ans struct {
+		r SatResult
+		m Model
+	}
+	kinds := []string{"z3", "z3-new", "cvc5"}
+	ch := make(chan ans, len(kinds))
+	var cmds []*exec.Cmd
+	var mu sync.Mutex
+	for _, k := range kinds {
+		go func(k string) {
+			var argv []string
+			sc := script
+			switch k {
+			case "z3":
+				argv = []string{"z3", "-in", fmt.Sprintf("-T:%d", int(timeout.Seconds()))}
+			case "z3-new":
+				argv = []string{"z3-new", "-in", fmt.Sprintf("-T:%d", int(timeout.Seconds()))}
+			default:
+				argv = []string{"cvc5", "--lang=smt2", "--produce-models", fmt.Sprintf("--tlimit=%d", timeout.Milliseconds())}
+				sc = "(set-logic QF_BV)\n" + strings.Replace(script, "(set-option :produce-models true)\n", "", 1)
+			}
+			cmd := exec.Command(argv[0], argv[1:]...)
+			cmd.Stdin = strings.NewReader(sc)
+			mu.Lock()
+			cmds = append(cmds, cmd)
+			mu.Unlock()
+			out, _ := cmd.CombinedOutput()
+			o := string(out)
+			a := ans{r: Unknown}
+			first := strings.TrimSpace(strings.SplitN(o, "\n", 2)[0])
+			switch first {
+			case "unsat":
+				a.r = Unsat
+			case "sat":
+				a.r = Sat
+				a.m = Model{}
+				if i := strings.Index(o, "\n"); i >= 0 {
+					parseModel(o[i+1:], a.m)
+				}
+			}
+			if strings.Contains(o, "(error") && a.r != Unsat {
+				a.r = Unknown
+			}
+			ch <- a
+		}(k)
+	}
+	res := ans{r: Unknown}
+	for range kinds {
+		a := <-ch
+		if a.r != Unknown {
+			res = a
+			break
+		}
+	}
+	mu.Lock()
+	for _, c := range cmds {
+		if c.Process != nil {
+			c.Process.Kill()
+		}
+	}
+	mu.Unlock()
+	return res.r, res.m
+}
